@@ -83,14 +83,14 @@ def main(tier):
 
     spec = docspec.spec()
     k1r = {r for r, d in spec.items() if d["group"] in ("alignment", "indent", "structure")}
-    its = common.pipe_items(tier, KQ, KT, k1=(tier != "quick"), k1_rules=k1r, all_on=False) + common.k2_items(tier, skip=(tier != "quick"), case=True)
+    its = common.pipe_items(tier, KQ, KT, k1=(tier != "quick"), k1_rules=k1r, all_on=False) + common.k2_items(tier, skip=(tier != "quick"), case=True, prereq=True)
     m = explore.run(its, execute, horizon=240.0, label=PROP)
     return report.finish(
         PROP, tier, "model_checking", [m], t0,
         "nodes = texts, one edge per configuration y = fix_c(x) computed by the real apply_rules --fix; from every start variant edges are followed until a fixpoint, a revisited node (cycle) "
         "or 6 steps; the property holds iff every node with an in-edge is a fixpoint; transitions = fix applications; non-trivial = start variants that fix changed",
         ["fixpoint texts are memoised per worker on (configuration, text hash)", "the finding signature is (kind, rules with an effective transition in the second run)"],
-        extra_cov={"bound": common.bound_text(tier, KQ, KT) + "; K2: each single skip_phase / the documented use-clause indent options on the seeds concerned", "max_steps": MAX_STEPS},
+        extra_cov={"bound": common.bound_text(tier, KQ, KT) + "; K2: each single skip_phase / the documented use-clause indent options (also on the upper-cased seed) on the seeds concerned; each prerequisite rule disabled on the seeds with default values", "max_steps": MAX_STEPS},
         reproduce=reproduce,
         technique="explicit-state exploration of the functional graph of texts under fix; fixpoint / cycle classification",
     )
